@@ -14,9 +14,15 @@ def write (args : List String) : String :=
   let r := Diskfs.PartIO.writeContents start size chunks
   s!"ws={wsLens r.ws}\ttotal={r.total}\tok={if r.ok then 1 else 0}"
 
+/-- partio.read start= size= pss= dev= → `rs=off:len,...` -/
+def read (args : List String) : String :=
+  let rs := Diskfs.PartIO.readReqs (argNatD args "dev") (argNatD args "start") (argNatD args "size") (argNatD args "pss") 0 []
+  "rs=" ++ (if rs.isEmpty then "-" else ",".intercalate (rs.map fun r => s!"{r.1}:{r.2}"))
+
 end Driver.PartIO
 
 def main : IO Unit := Driver.runLoop fun op args =>
   match op with
   | "partio.write" => Driver.PartIO.write args
+  | "partio.read" => Driver.PartIO.read args
   | _ => "unknown-op"
